@@ -127,17 +127,10 @@ def power(src):
     return int(r.group(1)), cap
 
 
-def generate():
-    out = ["(* GENERATED by tools/rs2v/regiontables.py from /repo/lorawan-device/src/region -- do not edit.",
-           "   region ids: 0 AS923_1, 1 AS923_2, 2 AS923_3, 3 AS923_4, 4 AU915, 5 EU868, 6 EU433, 7 IN865, 8 US915.",
-           "   datarates: (SF, bandwidth index (7 = 125 kHz, 8 = 250 kHz, 9 = 500 kHz), max MAC payload) per DR 0..14. *)",
-           "From Coq Require Import NArith List.", "Import ListNotations.", "Open Scope N_scope.", ""]
+def read_source():
+    """textual reading: (protocol constants, per-region rows)"""
     cs = strip(open(os.path.join(R, "constants.rs")).read())
-    for name in ("RECEIVE_DELAY1", "JOIN_ACCEPT_DELAY1", "JOIN_ACCEPT_DELAY2"):
-        out.append("Definition c_%s : N := %d." % (name.lower(), const(cs, name)))
-    for name in ("MAX_FCNT_GAP", "ADR_ACK_LIMIT", "ADR_ACK_DELAY", "NUM_DATARATES", "NUM_CHANNELS_DYNAMIC"):
-        out.append("Definition c_%s : N := %d." % (name.lower(), const(cs, name)))
-    out.append("")
+    consts = [(name, const(cs, name)) for name in CONST_NAMES]
     rows = []
     for rid, name, path, kind in REGIONS:
         if kind == "dyn":
@@ -183,31 +176,158 @@ def generate():
             if not m1 or not m2:
                 raise Untranslatable("%s: join data rates" % name)
             jdr = (int(m1.group(1)), int(m2.group(1)))
-        dstr = "; ".join("None" if d is None else "Some (%d, %d, %d)" % d for d in dts)
-        out.append("(* %s *)" % name)
+        if cap >= eirp:
+            cap = 0  # a cap that never binds: same function as no cap
+        rows.append(dict(rid=rid, name=name, dts=dts, rx2=rx2, maxoff=maxoff, lo=lo, hi=hi, eirp=eirp, pmax=pmax, cap=cap, nj=nj,
+                         chans=chans, up=up, down=down, jdr=jdr))
+    return consts, rows
+
+
+CONST_NAMES = ("RECEIVE_DELAY1", "JOIN_ACCEPT_DELAY1", "JOIN_ACCEPT_DELAY2", "MAX_FCNT_GAP", "ADR_ACK_LIMIT", "ADR_ACK_DELAY",
+               "NUM_DATARATES", "NUM_CHANNELS_DYNAMIC")
+BW_HZ = {7810: 0, 10420: 1, 15630: 2, 20830: 3, 31250: 4, 41670: 5, 62500: 6, 125000: 7, 250000: 8, 500000: 9}
+
+
+def read_dump(lines):
+    """semantic reading: the same (constants, rows) from the output of `vph regiontables <rid>` (the compiled code asked through
+    the cfg(lora_rs_verif) hooks Configuration::verif_tables / verif_frequency_valid / verif_snapshot)"""
+    consts, rows = None, []
+    for (rid, name, _, kind), line in zip(REGIONS, lines):
+        kv = dict(t.split("=", 1) for t in line.split() if "=" in t)
+        if kv.get("r") != str(rid):
+            raise Untranslatable("dump line for region %d: %s" % (rid, line[:80]))
+        c = [int(x) for x in kv["consts"].split(",")]
+        if consts is not None and c != consts:
+            raise Untranslatable("protocol constants differ between regions")
+        consts = c
+        d = kv["dr"].split(",")
+        if len(d) != 16 or d[15] != "-":
+            raise Untranslatable("%s: data-rate slots %s" % (name, d))
+        dts = []
+        for e in d[:15]:
+            if e == "-":
+                dts.append(None)
+            else:
+                sf, hz, mx = (int(x) for x in e.split("/"))
+                if hz not in BW_HZ:
+                    raise Untranslatable("%s: bandwidth %d" % (name, hz))
+                dts.append((sf, BW_HZ[hz], mx))
+        offs = [int(x) for x in kv["off"].split(",") if x != ""]
+        if offs != list(range(len(offs))) or not offs:
+            raise Untranslatable("%s: accepted RX1 offsets %s are not 0..max" % (name, offs))
+        pw = kv["pw"].split(",")
+        vals = []
+        for x in pw:
+            if x == "-":
+                break
+            vals.append(int(x))
+        if not vals or any(x != "-" for x in pw[len(vals):]):
+            raise Untranslatable("%s: TX power steps %s" % (name, pw))
+        pmax = len(vals) - 1
+        eirp = vals[pmax] + 2 * pmax
+        cap = vals[0] if vals[0] < eirp else 0
+        if any(v != (min(cap, eirp - 2 * i) if cap else eirp - 2 * i) for i, v in enumerate(vals)):
+            raise Untranslatable("%s: TX power steps %s are not min(cap, MAX_EIRP - 2*index)" % (name, vals))
+        rg = kv["range"].split(",")
+        if len(rg) != 1 or rg[0].endswith("open") or rg[0] == "":
+            raise Untranslatable("%s: frequency check accepts %s (not one closed interval)" % (name, rg))
+        lo, hi = (int(x) for x in rg[0].split("-"))
+        fresh = kv["fresh"]
+        if kind == "dyn":
+            m = re.search(r"ch=([^;]*)", fresh)
+            slots = m.group(1).split(",")
+            chans = []
+            for sl in slots:
+                if sl == "-":
+                    break
+                chans.append(int(sl.split("/")[0]))
+            if any(sl != "-" for sl in slots[len(chans):]):
+                raise Untranslatable("%s: default channels are not the leading slots" % name)
+            up, down, jdr, nj = [], [], (0, 0), len(chans)
+        else:
+            up = [int(x) for x in kv["up"].split(",")]
+            down = [int(x) for x in kv["down"].split(",")]
+            if len(up) != 72 or len(down) != 8:
+                raise Untranslatable("%s channel maps %d/%d" % (name, len(up), len(down)))
+            a, b = kv["joindr"].split("/")
+            jdr, chans, nj = (int(a), int(b)), [], 0
+        rows.append(dict(rid=rid, name=name, dts=dts, rx2=int(kv["rx2"]), maxoff=offs[-1], lo=lo, hi=hi, eirp=eirp, pmax=pmax, cap=cap,
+                         nj=nj, chans=chans, up=up, down=down, jdr=jdr))
+    if len(rows) != len(REGIONS):
+        raise Untranslatable("dump has %d regions" % len(rows))
+    return list(zip(CONST_NAMES, consts)), rows
+
+
+def render(consts, rows):
+    out = ["(* GENERATED by tools/rs2v/regiontables.py from /repo/lorawan-device/src/region -- do not edit.",
+           "   region ids: 0 AS923_1, 1 AS923_2, 2 AS923_3, 3 AS923_4, 4 AU915, 5 EU868, 6 EU433, 7 IN865, 8 US915.",
+           "   datarates: (SF, bandwidth index (7 = 125 kHz, 8 = 250 kHz, 9 = 500 kHz), max MAC payload) per DR 0..14. *)",
+           "From Coq Require Import NArith List.", "Import ListNotations.", "Open Scope N_scope.", ""]
+    for name, v in consts:
+        out.append("Definition c_%s : N := %d." % (name.lower(), v))
+    out.append("")
+    ids = []
+    for w in rows:
+        rid = w["rid"]
+        dstr = "; ".join("None" if d is None else "Some (%d, %d, %d)" % d for d in w["dts"])
+        out.append("(* %s *)" % w["name"])
         out.append("Definition r%d_datarates : list (option (N * N * N)) := [%s]." % (rid, dstr))
         out.append("Definition r%d_consts : N * N * N * N * N * N * N * N := (%d, %d, %d, %d, %d, %d, %d, %d)."
-                   % (rid, rx2, maxoff, lo, hi, eirp, pmax, cap, nj))
-        out.append("Definition r%d_join_channels : list N := [%s]." % (rid, "; ".join(map(str, chans))))
-        out.append("Definition r%d_uplink : list N := [%s]." % (rid, "; ".join(map(str, up))))
-        out.append("Definition r%d_downlink : list N := [%s]." % (rid, "; ".join(map(str, down))))
-        out.append("Definition r%d_join_dr : N * N := (%d, %d).\n" % (rid, jdr[0], jdr[1]))
-        rows.append(rid)
+                   % (rid, w["rx2"], w["maxoff"], w["lo"], w["hi"], w["eirp"], w["pmax"], w["cap"], w["nj"]))
+        out.append("Definition r%d_join_channels : list N := [%s]." % (rid, "; ".join(map(str, w["chans"]))))
+        out.append("Definition r%d_uplink : list N := [%s]." % (rid, "; ".join(map(str, w["up"]))))
+        out.append("Definition r%d_downlink : list N := [%s]." % (rid, "; ".join(map(str, w["down"]))))
+        out.append("Definition r%d_join_dr : N * N := (%d, %d).\n" % (rid, w["jdr"][0], w["jdr"][1]))
+        ids.append(rid)
     out.append("(* (datarates, (rx2_freq, max_rx1_dr_offset, freq_lo, freq_hi, max_eirp, max_power_index, power_cap (0 = none), num_join_channels),")
     out.append("    default join channels, uplink map, downlink map) by region id *)")
-    out.append("Definition region_tables := [%s]." % "; ".join("(r%d_datarates, r%d_consts, r%d_join_channels, r%d_uplink, r%d_downlink)" % (r, r, r, r, r) for r in rows))
+    out.append("Definition region_tables := [%s]." % "; ".join("(r%d_datarates, r%d_consts, r%d_join_channels, r%d_uplink, r%d_downlink)" % (r, r, r, r, r) for r in ids))
     out.append("(* data rates mandated for join requests on 125 kHz / 500 kHz channels (fixed plans; (0, 0) for dynamic plans) *)")
-    out.append("Definition join_dr_table : list (N * N) := [%s]." % "; ".join("r%d_join_dr" % r for r in rows))
+    out.append("Definition join_dr_table : list (N * N) := [%s]." % "; ".join("r%d_join_dr" % r for r in ids))
     return "\n".join(out) + "\n"
 
 
+def generate():
+    return render(*read_source())
+
+
+def differences(a, b):
+    """where two readings (constants, rows) disagree"""
+    out = []
+    if a[0] != b[0]:
+        out.append("protocol constants: %s vs %s" % (a[0], b[0]))
+    for x, y in zip(a[1], b[1]):
+        for k in x:
+            if x[k] != y[k]:
+                out.append("%s.%s: source text %s vs compiled code %s" % (x["name"], k, x[k], y[k]))
+    return out
+
+
 def main():
+    """usage: regiontables.py [--dump FILE]
+    Without --dump: the textual reading alone.  With --dump (the output of `vph regiontables 0..8`): both readings; they must
+    agree; when the source text cannot be read the tables are taken from the compiled code (exit 0, a note on stdout)."""
     dst = "/verif/coq/Gen/RegionTables.v"
+    dump = None
+    if len(sys.argv) == 3 and sys.argv[1] == "--dump":
+        try:
+            dump = read_dump([l for l in open(sys.argv[2]).read().splitlines() if l.startswith("r=")])
+        except (Untranslatable, KeyError, ValueError, AttributeError, IndexError) as e:
+            print("note: dump unreadable: %s" % e)
     try:
-        text = generate()
-    except Untranslatable as e:
-        print("untranslatable: %s" % e)
-        return 3
+        src = read_source()
+    except (Untranslatable, AttributeError) as e:
+        if dump is None:
+            print("untranslatable: %s" % e)
+            return 3
+        print("note: source text not readable by the textual translator (%s); tables taken from the compiled code" % e)
+        src = dump
+    if dump is not None and src is not dump:
+        d = differences(src, dump)
+        if d:
+            print("readings-disagree: " + "; ".join(d[:8]))
+            return 4
+    text = render(*src)
     if not os.path.exists(dst) or open(dst).read() != text:
         open(dst, "w").write(text)
         print("regenerated", dst)
